@@ -133,7 +133,7 @@ Definition src2_add_information (set_ : pyval -> pyval -> pyval -> pyval -> pyva
    (py_bind (py_bind v_name_id (fun a_2 => (py_bind v_issuer (fun a_3 => (py_bind v_session_info (fun a_4 => (py_bind (p2_getitem v_session_info (PStr "not_on_or_after")) (fun a_5 => (set_ (p2_attr v_self "cache") a_2 a_3 a_4 a_5))))))))) (fun _ =>
    v_name_id))))))))))).
 
-(* saml2/response.py:AuthnResponse.session_info, lines 1096-1126 *)
+(* saml2/response.py:AuthnResponse.session_info, lines 1103-1133 *)
 Definition src2_session_info (issuer_ : pyval -> pyval) (authn_info_ : pyval -> pyval) (authz_info_ : pyval -> pyval) (v_self : pyval) : pyval :=
   let v_nooa := PErr in
   let v_authn_statement := PErr in
